@@ -615,6 +615,8 @@ pub struct Host {
     pub last_save: Option<String>,
     pub cfg: HostCfg,
     pub meta: Rc<Meta>,
+    /// externals currently bound (as far as the host's own calls tell)
+    pub bound: std::collections::BTreeSet<String>,
 }
 
 pub const N_OBSERVERS: usize = 3;
@@ -634,8 +636,10 @@ impl Host {
             story.set_error_handler(Rc::new(RefCell::new(Handler { log: log.clone() })));
         }
         story.set_allow_external_function_fallbacks(cfg.allow_fallbacks);
+        let mut bound = std::collections::BTreeSet::new();
         if let Some(safe) = cfg.bind_externals {
             for (name, _) in &meta.externals {
+                bound.insert(name.clone());
                 let _ = story.bind_external_function(
                     name,
                     Rc::new(RefCell::new(Ext {
@@ -663,6 +667,7 @@ impl Host {
             last_save: None,
             cfg: cfg.clone(),
             meta,
+            bound,
         })
     }
 
@@ -894,14 +899,20 @@ impl Host {
                     *safe,
                 );
                 match r {
-                    Ok(()) => self.trace.push(Obs::Ret(format!("bound {name}"))),
+                    Ok(()) => {
+                        self.bound.insert(name.clone());
+                        self.trace.push(Obs::Ret(format!("bound {name}")))
+                    }
                     Err(e) => self.push_err(&e),
                 }
             }
             HostOp::Unbind(name) => {
                 let r = self.story.unbind_external_function(name);
                 match r {
-                    Ok(()) => self.trace.push(Obs::Ret(format!("unbound {name}"))),
+                    Ok(()) => {
+                        self.bound.remove(name);
+                        self.trace.push(Obs::Ret(format!("unbound {name}")))
+                    }
                     Err(e) => self.push_err(&e),
                 }
             }
